@@ -26,6 +26,8 @@ func init() {
 	register("C10", "R4", 5, "no stranded frames: every credit increase or enqueue is followed on all paths by an emitEligibleFrames covering the affected buffers", h2Rescan)
 	register("C10", "R5", 3, "continuation context: a CONTINUATION completes the state recorded by the last HEADERS/PUSH_PROMISE (priority, END_STREAM, promise id); the header buffer is reset when a new block starts", c10r5)
 	register("C10", "R6", 4, "connection frames are relayed with arguments taken from the received frame (SETTINGS list and ack, PING ack+payload, GOAWAY last id, code, debug data)", c10r6)
+	register("C10", "R9", 11, "no frame is swallowed: every forwarding call in processFrame (Processor.* and Framer.Write*) is reached whenever the frame is of its type, complete and well-formed - no further condition (setting count, flag, size) stands in front of it", c10r9)
+	register("C10", "R10", 4, "queued frames are never discarded: the per-stream output queues (relay.outputBuffers) only grow - no delete, clear or replacement of the map after newRelay; a frame waiting for flow-control credit stays reachable until it is sent", c10r10)
 	register("C10", "R8", 3, "queued frames own their payload: every byte slice stored in a queued DATA frame or header/push-promise chunk list is a fresh allocation filled by copy - never an alias of the framer's read buffer or of the relay's shared HPACK output buffer, both of which are overwritten while the frame may still be queued", c10r8)
 	register("C10", "R7", 2, "preface: connectionPreface equals RFC 7540 section 3.5; fixed-length protocol reads fill their buffer (io.ReadFull), never a bare Read whose count is discarded", c10r7)
 }
@@ -986,6 +988,7 @@ func c10r6(r *R) {
 	}
 	// SETTINGS: the list written is the list collected by the ForeachSetting closure, which appends every setting
 	good := false
+	extraGuard := ""
 	if settingsCall != nil && len(pf.AnonFuncs) > 0 {
 		lit := pf.AnonFuncs[0]
 		uncond := false
@@ -1005,6 +1008,20 @@ func c10r6(r *R) {
 		good = uncond && strings.HasPrefix(sa, "local:settings") || uncond && sa != ""
 		guard := guardedBy(settingsCall.Block(), func(s string) bool { return strings.Contains(s, "ForeachSetting") && strings.HasSuffix(s, "== nil)") })
 		good = good && guard
+		// ... and by nothing else: a further condition (number of settings, values) would swallow some SETTINGS frames,
+		// and the peer would wait for an acknowledgement that never comes
+		for _, g := range guardStrings(settingsCall.Block()) {
+			gg := strings.TrimLeft(g, "!")
+			isTypeCase := strings.Contains(gg, "$1.(*golang.org/x/net/http2.") && strings.HasSuffix(gg, ")#1")
+			if !(isTypeCase || strings.Contains(gg, "IsAck(") || strings.Contains(gg, "ForeachSetting(")) {
+				good = false
+				extraGuard = g
+			}
+		}
+	}
+	if extraGuard != "" {
+		r.bad("processFrame#relay(SETTINGS)", pf.Pos(), "a non-ACK SETTINGS frame is relayed only when "+extraGuard+": the others are swallowed and never acknowledged")
+		return
 	}
 	r.check(good, "processFrame#relay(SETTINGS)", pf.Pos(), "every received setting is appended and the list is written to dest", "SETTINGS are not relayed completely")
 }
@@ -1034,6 +1051,91 @@ func escapesFromEntry(fn *ssa.Function, target ssa.Instruction) bool {
 		return false
 	}
 	return walk(fn.Blocks[0])
+}
+
+// c10r9: a received frame is forwarded under no condition other than the ones
+// its handling needs (frame type, END_HEADERS, a successful decode / credit / settings walk).
+func c10r9(r *R) {
+	pf := r.method(h2pkg, "relay", "processFrame")
+	allowed := []string{
+		"sendWindowUpdates(",  // DATA is forwarded once the credit for it went out
+		").HeadersEnded(",     // HEADERS / PUSH_PROMISE without END_HEADERS wait for their CONTINUATION
+		").decodeFull(",       // a header block that does not decode is a connection error
+		"SettingsFrame).IsAck(", // SETTINGS and its acknowledgement are different frames
+		").ForeachSetting(",   // a malformed SETTINGS frame is a connection error
+		"ContinuationFrame).HeadersEnded(", // CONTINUATION completes the recorded block at END_HEADERS
+	}
+	n := 0
+	eachInstr(pf, func(ins ssa.Instruction) {
+		c, ok := ins.(*ssa.Call)
+		if !ok {
+			return
+		}
+		cn := calleeName(c.Common())
+		if !strings.HasPrefix(cn, "invoke martian/h2.Processor.") && !strings.HasPrefix(cn, "(*golang.org/x/net/http2.Framer).Write") && cn != "invoke martian/h2.continuationState.complete" && cn != "(*martian/h2.relay).updateWindow" {
+			return
+		}
+		n++
+		var extra []string
+		for _, g := range guardStrings(c.Block()) {
+			gg := strings.TrimLeft(g, "!")
+			if strings.Contains(gg, "$1.(*golang.org/x/net/http2.") && strings.HasSuffix(gg, ")#1") {
+				continue // the type switch
+			}
+			okg := false
+			for _, a := range allowed {
+				okg = okg || strings.Contains(gg, a)
+			}
+			if !okg {
+				extra = append(extra, g)
+			}
+		}
+		key := "processFrame#forward(" + cn[strings.LastIndex(cn, ".")+1:] + ")"
+		r.check(len(extra) == 0, key, c.Pos(), "forwarded whenever the frame is complete and well-formed", "the frame is forwarded only when "+strings.Join(extra, " ∧ ")+": frames that fail this test are swallowed, the peer never sees (or acknowledges) them")
+	})
+}
+
+func c10r10(r *R) {
+	n := 0
+	for _, fn := range r.modFuncs() {
+		if !strings.Contains(fname(fn), "martian/h2.") {
+			continue
+		}
+		eachInstr(fn, func(ins ssa.Instruction) {
+			switch x := ins.(type) {
+			case *ssa.Call:
+				cn := calleeName(x.Common())
+				if (cn == "builtin delete" || cn == "builtin clear") && strings.HasSuffix(describe(x.Common().Args[0]), ".outputBuffers") {
+					n++
+					r.bad(fname(fn)+"#"+cn[8:]+"(outputBuffers)", x.Pos(), "a stream's output queue is removed from the relay: DATA (and the RST_STREAM/trailers behind it) still waiting for window credit become unreachable and are never sent")
+				}
+			case *ssa.Store:
+				fa, ok := x.Addr.(*ssa.FieldAddr)
+				if !ok || structName(fa.X.Type()) != "martian/h2.relay" || fieldName(fa.X.Type(), fa.Field) != "outputBuffers" {
+					return
+				}
+				n++
+				r.check(fn.Name() == "newRelay", fname(fn)+"#set(outputBuffers)", x.Pos(), "the map of queues is created with the relay", "the map of output queues is replaced after construction: queued frames are dropped")
+			case *ssa.MapUpdate:
+				if strings.HasSuffix(describe(x.Map), ".outputBuffers") {
+					n++
+					// a queue may only be installed for a stream that has none
+					lk := guardedBy(x.Block(), func(g string) bool { return strings.HasPrefix(g, "!") && strings.Contains(g, ".outputBuffers[") && strings.HasSuffix(g, "#1") })
+					r.check(lk, fname(fn)+"#install(outputBuffers)", x.Pos(), "a queue is installed only when the stream has none", "a stream's queue is overwritten although one may exist: its queued frames are dropped")
+				}
+			case *ssa.Lookup:
+				if strings.HasSuffix(describe(x.X), ".outputBuffers") {
+					n++
+					r.ok(fname(fn)+"#lookup(outputBuffers)", x.Pos(), "read only")
+				}
+			case *ssa.Range:
+				if strings.HasSuffix(describe(x.X), ".outputBuffers") {
+					n++
+					r.ok(fname(fn)+"#range(outputBuffers)", x.Pos(), "read only")
+				}
+			}
+		})
+	}
 }
 
 func c10r7(r *R) {
